@@ -97,6 +97,11 @@ def impl_traj(case):
         if be == "fortran":
             cc["run"]["vectorize"] = False       # the fortran backend refuses vectorized networks by design (C20)
         out[be] = N.impl_run(cc)
+        if case.get("followup"):
+            c2 = copy.deepcopy(case["followup"])
+            c2["run"]["backend"] = be
+            c2["run"]["vectorize"] = cc["run"]["vectorize"]
+            out[be]["followup"] = N.impl_run(c2)
         try:
             clear_frontend_caches()
         except Exception:
@@ -159,7 +164,21 @@ def gen_traj_case(rng, tier, fortran, heun_inputs=False):
         if "error" in o or o["bits"] > 44:
             continue
         bes = [b for b in (BACKENDS if fortran else BACKENDS[:3]) if not (delayed and b == "jax")]     # jax refuses ring buffers by design (C20)
-        return {"kind": "traj", "run_case": case, "backends": bes, "delayed": delayed, "n_inputs": len(ext)}
+        out = {"kind": "traj", "run_case": case, "backends": bes, "delayed": delayed, "n_inputs": len(ext)}
+        if rng.random() < 0.5:
+            # the same network again in the same process with other parameter values, initial values and input samples (same equations, same step layout)
+            c2 = copy.deepcopy(case)
+            for nt in c2["mdl"]["node_templates"].values():
+                for o, ov in (nt.get("overrides") or {}).items():
+                    for k in ov:
+                        ov[k] = C.q2s(F(ov[k]) + F(rng.choice([-3, -1, 1, 2, 3]), 2))
+            for x in c2["ext_inputs"]:
+                x["samples"] = [C.q2s(F(rng.randint(-4, 4), 2)) for _ in x["samples"]]
+            c2["run"]["inputs"] = {x["tgt"]: x["samples"] for x in c2["ext_inputs"]}
+            o2 = N.oracle_traj(c2)
+            if "error" not in o2 and o2["bits"] <= 44:
+                out["followup"] = c2
+        return out
     raise C.HarnessError("C02 generator failed (traj)")
 
 
@@ -318,26 +337,32 @@ def check(tier, seed, replay=None):
             rc = case["run_case"]
             rep.count("T-traj-" + ("rich-" if case.get("rich") else "") + ("vec-" if rc["run"]["vectorize"] else "") + rc["run"]["solver"] + ("-delayed" if case["delayed"] else "") + (f"-{case['n_inputs']}inputs" if case["n_inputs"] else "") +
                       ("-fortran" if "fortran" in case["backends"] else ""), json.dumps(case, sort_keys=True), nontrivial=case["n_inputs"] >= 2 or case["delayed"])
-            orc = N.oracle_traj(rc)
-            mo = drv.ask(N.model_traj_request(rc, orc["flat"]))
-            if mo.get("rows") != orc["rows"]:
-                raise C.HarnessError("Lean trajectory and oracle disagree: " + json.dumps(rc)[:300])
-            for be in case["backends"]:
-                r = im[be]
-                if "error" in r and r["error"] == "PyRatesException" and "does not support solver" in r.get("msg", ""):
-                    continue          # a documented refusal (C20), not a different function
-                if "error" in r:
-                    dev.append(("backend-raises", {"backend": be, **r}))
-                    continue
-                cols = {(lb if isinstance(lb, str) else lb[0]): v for lb, v in r["cols"]}
-                for key, p in rc["run"]["outputs"].items():
-                    exp = [row[p] for row in orc["rows"]]
-                    g = cols.get(key)
-                    if g != exp:
-                        k0 = next((k for k in range(min(len(exp), len(g or []))) if g[k] != exp[k]), None)
-                        dev.append(("trajectory", {"backend": be, "variable": p, "first_wrong_sample": k0, "got": (g or [None])[k0] if k0 is not None else g,
-                                                   "expected": exp[k0] if k0 is not None else exp}))
-                        break
+            runs = [("", rc)] + ([("followup", case["followup"])] if case.get("followup") else [])
+            if case.get("followup"):
+                rep.cov["streams"]["T_cases_with_followup_run"] = rep.cov["streams"].get("T_cases_with_followup_run", 0) + 1
+            for tag, rc in runs:
+                orc = N.oracle_traj(rc)
+                mo = drv.ask(N.model_traj_request(rc, orc["flat"]))
+                if mo.get("rows") != orc["rows"]:
+                    raise C.HarnessError("Lean trajectory and oracle disagree: " + json.dumps(rc)[:300])
+                for be in case["backends"]:
+                    r = im[be]
+                    if tag and "error" not in r:
+                        r = r[tag]
+                    if "error" in r and r["error"] == "PyRatesException" and "does not support solver" in r.get("msg", ""):
+                        continue          # a documented refusal (C20), not a different function
+                    if "error" in r:
+                        dev.append(("backend-raises", {"backend": be, "run": tag or "first", **r}))
+                        continue
+                    cols = {(lb if isinstance(lb, str) else lb[0]): v for lb, v in r["cols"]}
+                    for key, p in rc["run"]["outputs"].items():
+                        exp = [row[p] for row in orc["rows"]]
+                        g = cols.get(key)
+                        if g != exp:
+                            k0 = next((k for k in range(min(len(exp), len(g or []))) if g[k] != exp[k]), None)
+                            dev.append(("trajectory", {"backend": be, "run": tag or "first", "variable": p, "first_wrong_sample": k0, "got": (g or [None])[k0] if k0 is not None else g,
+                                                       "expected": exp[k0] if k0 is not None else exp}))
+                            break
         if dev:
             bad.append((case, dev))
         else:
